@@ -428,6 +428,8 @@ pub fn literal_table() -> Vec<Case> {
 pub enum HOp {
     /// update_currency(name, rate)
     Update(String, f64),
+    /// update_currency(name, current rate of that currency * (1 + k * 1e-6)): a small move of the rate is a move
+    Nudge(String, i8),
     /// evaluate a shape
     Eval(Shape),
 }
@@ -470,7 +472,19 @@ impl Prop for RateHistory {
         let mut touched_then_used = false;
         let mut last_updated: Option<String> = None;
         for op in &h.ops {
+            // a nudge is an update whose rate is computed from the model's current rate
+            let nudged;
+            let op = match op {
+                HOp::Nudge(name, k) => {
+                    let cur = resolve_currency(name).and_then(|key| rates.0.get(&key).copied()).unwrap_or(1.0);
+                    let k = if *k == 0 { 1 } else { *k };
+                    nudged = HOp::Update(name.clone(), cur * (1.0 + k as f64 * 1e-6));
+                    &nudged
+                }
+                other => other,
+            };
             match op {
+                HOp::Nudge(..) => unreachable!(),
                 HOp::Update(name, rate) => {
                     rendered.push_str(&format!("update_currency({:?}, {}); ", name, rate));
                     let got = match crate::engine::guarded(|| calc.update_currency(name, *rate)) {
@@ -558,7 +572,8 @@ pub fn history_strategy() -> impl Strategy<Value = History> {
         3 => (prop::sample::select(vec!["usd", "try", "eur", "gbp", "jpy", "sek", "dkk", "bgn", "aed", "cad"]), 1u8..5, prop::sample::select(vec!["usd", "try", "eur", "gbp", "jpy", "sek", "dkk", "bgn", "tl", "dollar", "aed", "cad"]), 1u32..100_000).prop_map(|(a, c, b, amt)| Shape::Convert(plain_lit(amt as f64 / 10.0, a), c, b.to_string(), 0, 0)),
         1 => (prop::sample::select(vec!["usd", "try", "eur", "gbp"]), any::<bool>(), prop::sample::select(vec!["usd", "try", "eur", "jpy"])).prop_map(|(a, p, b)| Shape::AddSub(plain_lit(10.0, a), p, plain_lit(3.0, b))),
     ];
-    let op = prop_oneof![2 => (prop::sample::select(names), rate).prop_map(|(n, r)| HOp::Update(n, r)), 3 => eval_shape.prop_map(HOp::Eval)];
+    let nudge_names = prop::sample::select(vec!["usd", "try", "eur", "gbp", "jpy", "sek", "dkk", "bgn"]).prop_map(|s| s.to_string());
+    let op = prop_oneof![4 => (prop::sample::select(names), rate).prop_map(|(n, r)| HOp::Update(n, r)), 1 => (nudge_names, any::<i8>()).prop_map(|(n, k)| HOp::Nudge(n, k)), 6 => eval_shape.prop_map(HOp::Eval)];
     prop::collection::vec(op, 1..10).prop_map(|ops| History { ops })
 }
 
